@@ -774,6 +774,16 @@ class C08:
 
 
 def run(ctx: Ctx):
+    from .common import Settle as _Settle, soften_foreign as _soften
+    whole_ = _Settle(ctx)
+    try:
+        return _run(ctx)
+    finally:
+        # (as in C09: a finding about a function written in a formulation the rules cannot read is not a finding -- undecided)
+        _soften(ctx, whole_, ("R08.",))
+
+
+def _run(ctx: Ctx):
     ctx.rule("R08.1", "clips paired by clip id; parameters bound correctly; every clip collected", 4)
     ctx.rule("R08.2", "index-domain typing of every subscript of the prediction/annotation lists", 4)
     ctx.rule("R08.3", "both lists are covered exactly once by the sources of the match loop", 2)
